@@ -346,6 +346,9 @@ var preservesCache sync.Map
 // historical generations under internal/testprotos/legacy (proto3 code generated before
 // unknown-field preservation existed) may answer false; every other type must preserve them.
 func PreservesUnknown(md protoreflect.MessageDescriptor) bool {
+	if md.ParentFile() == nil {
+		return true // descriptor derived from a hand-written Go type
+	}
 	path := md.ParentFile().Path()
 	if !(strings.HasPrefix(path, "proto2_20") || strings.HasPrefix(path, "proto3_20")) {
 		return true
